@@ -286,8 +286,78 @@ def run_nested(c: dict):
     return None, "returned"
 
 
+class ShortWriteRaw(io.RawIOBase):
+    """An unbuffered output (non-blocking pipe, socket with timeout) that accepts at most `cap` bytes per write()
+    and says so through its return value."""
+
+    def __init__(self, cap: int):
+        super().__init__()
+        self.cap = cap
+        self.buf = bytearray()
+
+    def writable(self):
+        return True
+
+    def write(self, b):
+        n = min(len(b), self.cap)
+        self.buf += bytes(b[:n])
+        return n
+
+
+def short_write_cases():
+    for entry in ("g_flat_to_file", "g_grouped_to_file", "r_flat_to_file", "r_grouped_to_file", "r_serialize_options"):
+        for arity in (3, 4):
+            for cap in (1, 7, 40, 4096):
+                for n in (3, -6):
+                    yield {"entry": "short-write:" + entry, "integration": "generic" if entry[0] == "g" else "rdflib",
+                           "arity": arity, "cap": cap, "n": n, "frame_size": 3, "delimited": True,
+                           "logical": 1 if arity == 3 else 2, "physical": 0, "flow": "inferred", "flow_logical": None, "collect": False}
+
+
+def run_short_write(c: dict):
+    stmts = inputs(c["arity"], c["n"])
+    out = ShortWriteRaw(c["cap"])
+    options = SerializerOptions(frame_size=c["frame_size"], logical_type=c["logical"],
+                                params=StreamParameters(generalized_statements=True, rdf_star=True), lookup_preset=LookupPreset.small())
+    e = c["entry"].split(":")[1]
+    try:
+        if e == "g_flat_to_file":
+            gser.flat_stream_to_file((T.stmt_to_generic(s) for s in stmts), out, options=options)
+        elif e == "g_grouped_to_file":
+            gser.grouped_stream_to_file((s for s in [pj.generic_sink_of(stmts)]), out, options=options)
+        elif e == "r_flat_to_file":
+            rser.flat_stream_to_file((T.stmt_to_rdflib(s) for s in stmts), out, options=options)
+        elif e == "r_grouped_to_file":
+            rser.grouped_stream_to_file((s for s in [pj.rdflib_store_of(stmts, dataset=c["arity"] == 4)]), out, options=options)
+        else:
+            rser.RDFLibJellySerializer(pj.rdflib_store_of(stmts, dataset=c["arity"] == 4)).serialize(out, options=options)
+    except Exception:  # noqa: BLE001 - refusing (raising) is what a writer that cannot honour the call should do
+        return None, "raised"
+    data = bytes(out.buf)
+    want = [T.norm_stmt(s) for s in stmts]
+    try:
+        got = [T.norm_stmt(ev[1]) for ev in pj.parse("generic", "flat", data) if ev[0] == "stmt"]
+    except Exception as ex:  # noqa: BLE001
+        return {"clause": "bytes-do-not-parse", "cfg": c, "streams": [], "n_bytes": len(data),
+                "summary": f"{e} returned normally although the output accepted only {c['cap']} bytes per write(): "
+                           f"{len(data)} bytes reached it and they do not parse ({type(ex).__name__})"}, "returned"
+    if (got != want) if c["integration"] == "generic" else (set(got) != set(want)):
+        return {"clause": "parse-differs", "cfg": c, "streams": [], "n_bytes": len(data),
+                "summary": f"{e} with short writes returned normally; {len(got)} of {len(want)} statements are in the output"}, "returned"
+    return None, "returned"
+
+
 def run_shard(ctx):
     monitors.stream_registry_on()
+    if ctx.shard == 1 % ctx.nshards:
+        for c in short_write_cases():
+            w, outcome = run_short_write(c)
+            ctx.observe("short-write-outputs")
+            ctx.observe("configurations-accepted" if outcome == "returned" else "configurations-raised")
+            if w is not None:
+                ctx.violation(w)
+            ctx.case(tuple(sorted((k, str(v)) for k, v in c.items())), outcome == "returned",
+                     sample={"cfg": c, "kind": "output that accepts partial writes", "outcome": outcome})
     if ctx.shard == 0:
         for c in nested_cases():
             w, outcome = run_nested(c)
@@ -338,6 +408,8 @@ def replay(w: dict):
     c = w["cfg"]
     if c.get("entry") == "nested_flat_to_file":
         return run_nested(c)[0]
+    if str(c.get("entry", "")).startswith("short-write:"):
+        return run_short_write(c)[0]
     res = run_config(c)
     if res["outcome"] == "raised":
         return None
